@@ -1,7 +1,8 @@
 /-
   Rbgp.Policy.Wf — which case lines are *cases* (the harness answers `(bad-case)` to the others,
   e.g. to what the shrinker produces).  A probe's attribute list must be a value the wire decoder
-  produces (`Attribute::decode` + the UPDATE attribute loop), prefix/neighbor elements carry no
+  produces (`Attribute::decode` + the UPDATE attribute loop) or that minus ORIGIN / AS_PATH (a
+  vector the API builds for a locally originated route), prefix/neighbor elements carry no
   host bits, and patterns are inside the fragment the driver's regex engine implements.
 -/
 import Rbgp.Policy.Model
@@ -23,7 +24,6 @@ def payloadLen (a : Attr) : Nat :=
   | .val _ => if a.code = 1 then 1 else 4
   | .bin b => b.length
 
-def isLb (c : Bytes) : Bool := match c with | t :: s :: _ => t == 64 && s == 4 | _ => false
 
 def wfAttr (a : Attr) : Bool :=
   allowedCodes.contains a.code && a.flags < 256 && (a.flags / 64) % 4 == canonTO a.code / 64 &&
@@ -40,7 +40,7 @@ def wfAttr (a : Attr) : Bool :=
    | 6, .bin b => b.isEmpty
    | 8, .bin b => b.length % 4 == 0
    | 10, .bin b => b.length % 4 == 0
-   | 16, .bin b => b.length % 8 == 0 && !(chunks8 b).any isLb
+   | 16, .bin b => b.length % 8 == 0 && (chunks8 b).all Regex.lbOk
    | 32, .bin b => b.length % 12 == 0
    | 99, .bin _ => true
    | _, _ => false)
@@ -70,8 +70,8 @@ def validOriginOk (r : Route) : Bool :=
 
 def wfRoute (r : Route) : Bool :=
   wfNet r.net r.mask && r.attrs.all wfAttr && distinctCodes r.attrs &&
-  r.attrs.any (fun a => a.code == 1) && r.attrs.any (fun a => a.code == 2) &&
-  (r.attrs.map payloadLen).sum ≤ 60000 && validOriginOk r
+  (r.attrs.map payloadLen).sum ≤ 60000 && validOriginOk r &&
+  (r.rpki.isNone || r.attrs.any (fun a => a.code == 2))   -- a validation state only with an AS_PATH
 
 def wfPat (p : String) : Bool := Regex.supported p
 
@@ -97,7 +97,7 @@ def wfElem (k : SetKind) : Elem → Bool
 def wfActions (a : Actions) : Bool :=
   (match a.med with | some (_, v) => -9223372036854775808 ≤ v && v ≤ 9223372036854775807 | none => true) &&
   (match a.asPrepend with | some (_, n, _) => n ≤ 1000 | none => true) &&
-  (match a.ext with | some (_, l) => l.all (fun c => c.length == 8 && !isLb c) | none => true)
+  (match a.ext with | some (_, l) => l.all (fun c => c.length == 8 && Regex.lbOk c) | none => true)
 
 def wfOp : Op → Bool
   | .setAdd k _ es => es.all (wfElem k)
